@@ -217,7 +217,7 @@ pub fn run(prop: &str, thorough: bool, seed: u64, rep: &mut Report) {
     let sur = ["\\uD800", "\\uDBFF", "\\uDC00", "\\uDFFF", "\\u0041", "a", "\\n", "\u{e9}", "\"", "\\u12"];
     for_each(&sur, if thorough { 5 } else { 4 }, |s| { let t = format!("\"{}", s); check_text(prop, &t, rep); let t2 = format!("{{\"{}:0}}", s); check_text(prop, &t2, rep); });
     // one-character edits of the literals and of a small corpus
-    let corpus = ["true", "false", "null", "[true,false,null]", "{\"k\":[1.5e+3,{}],\"k\":\"\\u00e9\\n\"} ", " [ ] ", "{ }", "[[],{}]", "-0.0e-0"];
+    let corpus = ["true", "false", "null", "[true,false,null]", "{\"k\":[1.5e+3,{}],\"k\":\"\\u00e9\\n\"} ", " [ ] ", "{ }", "[[],{}]", "-0.0e-0", "[{\"a\":1},2]", "{\"a\":[1,{\"b\":[]}],\"c\":{}}"];
     let edits: Vec<char> = "tfnulrsae[]{},:\" 01-.+Ee\\x\u{e9}".chars().collect();
     for doc in corpus {
         let cs: Vec<char> = doc.chars().collect();
